@@ -47,13 +47,4 @@ impl TicketFactory {
     fn input_ticket(&mut self, input: Ticket)
 //@ include shared/input_ticket.spec
     { unimplemented!() }
-    #[verifier::external_body]
-    fn from_file<FSType: System>(file_system: &FSType, path : &str, Tracked(w): Tracked<&mut World>) -> (res: Result<TicketFactory, ReadWriteError>)
-//@ include shared/from_file.spec
-    { unimplemented!() }
-    // ASSUMED: directory hashing (outside every claim: targets are regular files)
-    #[verifier::external_body]
-    fn from_directory<FSType: System>(system: &FSType, path : &str, Tracked(w): Tracked<&mut World>) -> (r: Result<TicketFactory, ReadWriteError>)
-        ensures *final(w) == *old(w),
-    { unimplemented!() }
 }
